@@ -12,6 +12,8 @@ import (
 	"pgregory.net/rapid"
 
 	"github.com/osmosis-labs/osmosis/osmomath"
+	clmodel "github.com/osmosis-labs/osmosis/v31/x/concentrated-liquidity/model"
+	cltypes "github.com/osmosis-labs/osmosis/v31/x/concentrated-liquidity/types"
 	"github.com/osmosis-labs/osmosis/v31/x/gamm/pool-models/balancer"
 	gammtypes "github.com/osmosis-labs/osmosis/v31/x/gamm/types"
 	"github.com/osmosis-labs/osmosis/v31/x/lockup"
@@ -27,14 +29,16 @@ import (
 
 func TestMain(m *testing.M) { drv.Main(m) }
 
-const rule = "state machine on the real application: 2-3 validators, 3 owners, a superfluid-enabled balancer share (bond denom / token0); MsgLockAndSuperfluidDelegate, MsgLockTokens + MsgSuperfluidDelegate, lock top-ups of delegated locks, MsgSuperfluidUndelegate, MsgSuperfluidUnbondLock, MsgSuperfluidUndelegateAndUnbondLock (partial), forbidden MsgBeginUnlocking on delegated locks, price moves by swaps against the pool, superfluid epochs through the real x/epochs BeginBlocker followed by the superfluid BeginBlocker, time advances past the unbonding period with the lockup EndBlocker; mint provisions set to 0 so that any change of the reported bond-denom supply is superfluid's; oracle after every step: for each intermediary account delegated tokens vs E = risk-adjusted OSMO value (module's GetSuperfluidOSMOTokens) of the sum of the locks connected to it - exactly equal right after an epoch refresh, within 2 units per delegation-changing operation since the refresh otherwise; connected locks <=> locks carrying exactly one staking marker (superbonding synthetic lock) of the matching validator; every undelegated lock carries an unstaking marker ending exactly undelegation time + unbonding time and still exists before that; supply with offset unchanged; non-trivial = >= 2 locks through one intermediary account, a price move followed by an epoch, and an undelegation; distinct by history hash"
+const rule = "state machine on the real application: 2-3 validators, 3 owners, a superfluid-enabled balancer share (bond denom / token0) and, in two thirds of the cases, a superfluid-enabled concentrated share (bond denom / usdc, full-range positions through MsgCreateFullRangePositionAndSuperfluidDelegate and MsgAddToConcentratedLiquiditySuperfluidPosition, swaps on the concentrated pool); MsgLockAndSuperfluidDelegate, MsgLockTokens + MsgSuperfluidDelegate, lock top-ups of delegated locks, MsgSuperfluidUndelegate, MsgSuperfluidUnbondLock, MsgSuperfluidUndelegateAndUnbondLock (partial), forbidden MsgBeginUnlocking on delegated locks, price moves by swaps against the pool, superfluid epochs through the real x/epochs BeginBlocker followed by the superfluid BeginBlocker, time advances past the unbonding period with the lockup EndBlocker; mint provisions set to 0 so that any change of the reported bond-denom supply is superfluid's; oracle after every step: for each intermediary account delegated tokens vs E = risk-adjusted OSMO value (module's GetSuperfluidOSMOTokens) of the sum of the locks connected to it - exactly equal right after an epoch refresh, within 2 units per delegation-changing operation since the refresh otherwise; connected locks <=> locks carrying exactly one staking marker (superbonding synthetic lock) of the matching validator; every undelegated lock carries an unstaking marker ending exactly undelegation time + unbonding time and still exists before that; supply with offset unchanged; non-trivial = >= 2 locks through one intermediary account, a price move followed by an epoch, and an undelegation; distinct by history hash"
 
 type lk struct {
-	owner       int
-	val         string
-	delegated   bool
-	undelegAt   time.Time // zero: never undelegated
-	unbonding   bool
+	den       string // lock denom: the gamm share or the concentrated share
+	pos       uint64 // concentrated position backing the lock (0 for gamm share locks)
+	owner     int
+	val       string
+	delegated bool
+	undelegAt time.Time // zero: never undelegated
+	unbonding bool
 }
 
 func coin(d string, a osmomath.Int) sdk.Coin { return sdk.NewCoin(d, a) }
@@ -60,7 +64,7 @@ func TestPropSuperfluid(t *testing.T) {
 		sort.Strings(valAddrs)
 		big := osmomath.NewIntWithDecimal(1, 24)
 		for a := 0; a < 4; a++ {
-			c.Fund(chain.Actor(a), sdk.NewCoins(coin(bond, big), coin("token0", big), coin("uosmo", big)))
+			c.Fund(chain.Actor(a), sdk.NewCoins(coin(bond, big), coin("token0", big), coin("uosmo", big), coin("usdc", big)))
 		}
 		msg := balancer.NewMsgCreateBalancerPool(chain.Actor(3), balancer.PoolParams{SwapFee: osmomath.NewDecWithPrec(1, 3), ExitFee: osmomath.ZeroDec()},
 			[]balancer.PoolAsset{{Weight: osmomath.NewInt(1), Token: coin(bond, osmomath.NewInt(rapid.Int64Range(1_000_000_000, 1_000_000_000_000_000).Draw(rt, "poolBond")))}, {Weight: osmomath.NewInt(1), Token: coin("token0", osmomath.NewInt(10_000_000_000))}}, "")
@@ -77,6 +81,30 @@ func TestPropSuperfluid(t *testing.T) {
 				rt.Fatalf("harness: join pool: %v", r.Err)
 			}
 		}
+		// concentrated pool bond/usdc with full-range liquidity; its share is the second superfluid asset
+		clShare := ""
+		var clPoolID uint64
+		if rapid.IntRange(0, 2).Draw(rt, "withCL") > 0 {
+			m := clmodel.NewMsgCreateConcentratedPool(chain.Actor(3), bond, "usdc", 100, osmomath.MustNewDecFromStr("0.002"))
+			if r := c.Exec(&m); !r.OK() {
+				rt.Fatalf("harness: create CL pool: %v", r.Err)
+			}
+			clPoolID = c.App.PoolManagerKeeper.GetNextPoolId(c.Ctx) - 1
+			if r := c.Exec(&cltypes.MsgCreatePosition{PoolId: clPoolID, Sender: chain.Actor(3).String(), LowerTick: cltypes.MinInitializedTick, UpperTick: cltypes.MaxTick,
+				TokensProvided:  sdk.NewCoins(coin(bond, osmomath.NewInt(rapid.Int64Range(1_000_000_000, 1_000_000_000_000).Draw(rt, "clBond"))), coin("usdc", osmomath.NewInt(rapid.Int64Range(1_000_000_000, 1_000_000_000_000).Draw(rt, "clUsdc")))),
+				TokenMinAmount0: osmomath.ZeroInt(), TokenMinAmount1: osmomath.ZeroInt()}); !r.OK() {
+				rt.Fatalf("harness: full-range position: %v", r.Err)
+			}
+			clShare = cltypes.GetConcentratedLockupDenomFromPoolId(clPoolID)
+			if err := sfk.AddNewSuperfluidAsset(c.Ctx, sftypes.SuperfluidAsset{Denom: clShare, AssetType: sftypes.SuperfluidAssetTypeConcentratedShare}); err != nil {
+				rt.Fatalf("harness: AddNewSuperfluidAsset(cl): %v", err)
+			}
+			cs.Class("with-concentrated-asset")
+		}
+		denoms := []string{share}
+		if clShare != "" {
+			denoms = append(denoms, clShare)
+		}
 		epochID := sfk.GetEpochIdentifier(c.Ctx)
 		c.App.EpochsKeeper.BeginBlocker(c.Ctx) // start counting
 		supply0 := c.App.BankKeeper.GetSupplyWithOffset(c.Ctx, bond).Amount
@@ -87,8 +115,16 @@ func TestPropSuperfluid(t *testing.T) {
 		var hist []string
 		priceMoved, epochAfterMove, undelegated := false, false, false
 
-		accKey := func(val string) string { return share + "|" + val }
+		accKeyD := func(den, val string) string { return den + "|" + val }
+		accKey := func(val string) string { return accKeyD(share, val) }
 		bump := func(val string) { opsSinceRefresh[accKey(val)]++; justRefreshed = false }
+		bumpD := func(den, val string) { opsSinceRefresh[accKeyD(den, val)]++; justRefreshed = false }
+		denOf := func(l *lk) string {
+			if l.den == "" {
+				return share
+			}
+			return l.den
+		}
 		sortedLocks := func(pred func(*lk) bool) []uint64 {
 			var ids []uint64
 			for id, l := range locks {
@@ -153,17 +189,17 @@ func TestPropSuperfluid(t *testing.T) {
 				}
 				if l.delegated {
 					ia := sfk.GetIntermediaryAccount(ctx, sdk.MustAccAddressFromBech32(acc))
-					if ia.ValAddr != l.val || ia.Denom != share {
+					if ia.ValAddr != l.val || ia.Denom != denOf(l) {
 						rt.Fatalf("lock %d is connected to intermediary account (%s,%s), delegated to %s", id, ia.Denom, ia.ValAddr, l.val)
 					}
-					want := fmt.Sprintf("%s/superbonding/%s", share, l.val)
+					want := fmt.Sprintf("%s/superbonding/%s", denOf(l), l.val)
 					if len(synths) != 1 || synths[0].SynthDenom != want {
 						rt.Fatalf("delegated lock %d must carry exactly one staking marker %s, has %v [history %v]", id, want, synths, hist)
 					}
 					if lock.IsUnlocking() {
 						rt.Fatalf("delegated lock %d is unlocking [history %v]", id, hist)
 					}
-					k := accKey(l.val)
+					k := accKeyD(denOf(l), l.val)
 					if _, ok := sums[k]; !ok {
 						sums[k] = osmomath.ZeroInt()
 					}
@@ -171,7 +207,7 @@ func TestPropSuperfluid(t *testing.T) {
 				} else if !l.undelegAt.IsZero() {
 					end := l.undelegAt.Add(unbonding)
 					if ctx.BlockTime().Before(end) {
-						want := fmt.Sprintf("%s/superunbonding/%s", share, l.val)
+						want := fmt.Sprintf("%s/superunbonding/%s", denOf(l), l.val)
 						if len(synths) != 1 || synths[0].SynthDenom != want || !synths[0].EndTime.Equal(end) {
 							rt.Fatalf("undelegated lock %d must carry the unstaking marker %s ending %s, has %v [history %v]", id, want, end, synths, hist)
 						}
@@ -184,30 +220,33 @@ func TestPropSuperfluid(t *testing.T) {
 				}
 			}
 			// stake vs locks
-			for _, val := range valAddrs {
-				k := accKey(val)
-				sum, ok := sums[k]
-				if !ok {
-					sum = osmomath.ZeroInt()
-				}
-				E, err := sfk.GetSuperfluidOSMOTokens(ctx, share, sum)
-				if err != nil {
-					rt.Fatalf("GetSuperfluidOSMOTokens: %v", err)
-				}
-				ia := sftypes.NewSuperfluidIntermediaryAccount(share, val, 0)
-				valAddr, _ := sdk.ValAddressFromBech32(val)
-				tokens := osmomath.ZeroInt()
-				if del, err := sk.GetDelegation(ctx, ia.GetAccAddress(), valAddr); err == nil {
-					v, _ := sk.GetValidator(ctx, valAddr)
-					tokens = v.TokensFromShares(del.Shares).RoundInt()
-				}
-				diff := tokens.Sub(E).Abs()
-				allowed := osmomath.NewInt(int64(2 * opsSinceRefresh[k]))
-				if justRefreshed {
-					allowed = osmomath.ZeroInt()
-				}
-				if diff.GT(allowed) {
-					rt.Fatalf("intermediary account (%s, %s): staked %s, risk-adjusted value of the %s shares locked through it is %s (allowed drift %s, %d operations since the refresh, justRefreshed=%v) [history %v]", share, val[len(val)-6:], tokens, sum, E, allowed, opsSinceRefresh[k], justRefreshed, hist)
+			for _, dv := range denoms {
+				for _, val := range valAddrs {
+					share := dv
+					k := accKeyD(share, val)
+					sum, ok := sums[k]
+					if !ok {
+						sum = osmomath.ZeroInt()
+					}
+					E, err := sfk.GetSuperfluidOSMOTokens(ctx, share, sum)
+					if err != nil {
+						rt.Fatalf("GetSuperfluidOSMOTokens: %v", err)
+					}
+					ia := sftypes.NewSuperfluidIntermediaryAccount(share, val, 0)
+					valAddr, _ := sdk.ValAddressFromBech32(val)
+					tokens := osmomath.ZeroInt()
+					if del, err := sk.GetDelegation(ctx, ia.GetAccAddress(), valAddr); err == nil {
+						v, _ := sk.GetValidator(ctx, valAddr)
+						tokens = v.TokensFromShares(del.Shares).RoundInt()
+					}
+					diff := tokens.Sub(E).Abs()
+					allowed := osmomath.NewInt(int64(2 * opsSinceRefresh[k]))
+					if justRefreshed {
+						allowed = osmomath.ZeroInt()
+					}
+					if diff.GT(allowed) {
+						rt.Fatalf("intermediary account (%s, %s): staked %s, risk-adjusted value of the %s shares locked through it is %s (allowed drift %s, %d operations since the refresh, justRefreshed=%v) [history %v]", share, val[len(val)-6:], tokens, sum, E, allowed, opsSinceRefresh[k], justRefreshed, hist)
+					}
 				}
 			}
 		}
@@ -267,7 +306,7 @@ func TestPropSuperfluid(t *testing.T) {
 				}
 			},
 			"topUp": func(rt *rapid.T) {
-				id, l := pick(rt, func(l *lk) bool { return l.delegated })
+				id, l := pick(rt, func(l *lk) bool { return l.delegated && l.den == "" })
 				lock, _ := lkk.GetLockByID(c.Ctx, id)
 				a := amt(rt)
 				r := c.Exec(lockuptypes.NewMsgLockTokens(chain.Actor(l.owner), lock.Duration, sdk.NewCoins(coin(share, a))))
@@ -294,7 +333,7 @@ func TestPropSuperfluid(t *testing.T) {
 					return
 				}
 				l.delegated, l.undelegAt = false, c.Ctx.BlockTime()
-				bump(l.val)
+				bumpD(denOf(l), l.val)
 				undelegated = true
 				hist = append(hist, fmt.Sprintf("undelegate #%d", id))
 			},
@@ -307,7 +346,7 @@ func TestPropSuperfluid(t *testing.T) {
 				}
 			},
 			"undelegateAndUnbond": func(rt *rapid.T) {
-				id, l := pick(rt, func(l *lk) bool { return l.delegated })
+				id, l := pick(rt, func(l *lk) bool { return l.delegated && l.den == "" })
 				lock, _ := lkk.GetLockByID(c.Ctx, id)
 				total := lock.Coins[0].Amount
 				part := total
@@ -344,6 +383,62 @@ func TestPropSuperfluid(t *testing.T) {
 					rt.Fatalf("rejected MsgBeginUnlocking changed state")
 				}
 				cs.Class("forbidden-unlock-rejected")
+			},
+			"clCreateAndDelegate": func(rt *rapid.T) {
+				if clShare == "" {
+					rt.Skip("no concentrated asset")
+				}
+				o := rapid.IntRange(0, 2).Draw(rt, "owner")
+				val := valAddrs[rapid.IntRange(0, len(valAddrs)-1).Draw(rt, "val")]
+				a0 := osmomath.NewInt(rapid.Int64Range(1, 1_000_000).Draw(rt, "clMant")).Mul(osmomath.NewIntWithDecimal(1, rapid.IntRange(0, 8).Draw(rt, "clExp")))
+				a1 := osmomath.NewInt(rapid.Int64Range(1, 1_000_000).Draw(rt, "clMant1")).Mul(osmomath.NewIntWithDecimal(1, rapid.IntRange(0, 8).Draw(rt, "clExp1")))
+				r := c.Exec(sftypes.NewMsgCreateFullRangePositionAndSuperfluidDelegate(chain.Actor(o), sdk.NewCoins(coin(bond, a0), coin("usdc", a1)), val, clPoolID))
+				if !r.OK() {
+					cs.Class("cl-delegate-rejected")
+					return
+				}
+				var resp sftypes.MsgCreateFullRangePositionAndSuperfluidDelegateResponse
+				_ = r.Unpack(&resp)
+				locks[resp.LockID] = &lk{den: clShare, pos: resp.PositionID, owner: o, val: val, delegated: true}
+				bumpD(clShare, val)
+				cs.Class("cl-position-delegated")
+				hist = append(hist, fmt.Sprintf("cl create+delegate o%d %s/%s ->#%d pos %d %s", o, a0, a1, resp.LockID, resp.PositionID, val[len(val)-4:]))
+			},
+			"clAddToPosition": func(rt *rapid.T) {
+				if clShare == "" {
+					rt.Skip("no concentrated asset")
+				}
+				id, l := pick(rt, func(l *lk) bool { return l.delegated && l.den != "" })
+				a0 := osmomath.NewInt(rapid.Int64Range(1, 1_000_000_000).Draw(rt, "add0"))
+				a1 := osmomath.NewInt(rapid.Int64Range(1, 1_000_000_000).Draw(rt, "add1"))
+				r := c.Exec(&sftypes.MsgAddToConcentratedLiquiditySuperfluidPosition{PositionId: l.pos, Sender: chain.Actor(l.owner).String(), TokenDesired0: coin(bond, a0), TokenDesired1: coin("usdc", a1)})
+				if !r.OK() {
+					cs.Class("cl-add-rejected")
+					return
+				}
+				var resp sftypes.MsgAddToConcentratedLiquiditySuperfluidPositionResponse
+				_ = r.Unpack(&resp)
+				// the old position and lock are replaced by new ones, still delegated to the same validator
+				delete(locks, id)
+				locks[resp.LockId] = &lk{den: clShare, pos: resp.PositionId, owner: l.owner, val: l.val, delegated: true}
+				bumpD(clShare, l.val)
+				bumpD(clShare, l.val)
+				cs.Class("cl-position-increased")
+				hist = append(hist, fmt.Sprintf("cl add #%d pos %d +%s/%s ->#%d pos %d", id, l.pos, a0, a1, resp.LockId, resp.PositionId))
+			},
+			"clPriceMove": func(rt *rapid.T) {
+				if clShare == "" {
+					rt.Skip("no concentrated asset")
+				}
+				in, out := bond, "usdc"
+				if rapid.Bool().Draw(rt, "direction") {
+					in, out = out, in
+				}
+				a := osmomath.NewInt(rapid.Int64Range(1, 1_000_000).Draw(rt, "mant")).Mul(osmomath.NewIntWithDecimal(1, rapid.IntRange(0, 7).Draw(rt, "exp")))
+				if r := c.Exec(&pmtypes.MsgSwapExactAmountIn{Sender: chain.Actor(3).String(), Routes: []pmtypes.SwapAmountInRoute{{PoolId: clPoolID, TokenOutDenom: out}}, TokenIn: coin(in, a), TokenOutMinAmount: osmomath.OneInt()}); r.OK() {
+					priceMoved = true
+					hist = append(hist, fmt.Sprintf("cl swap %s%s", a, in))
+				}
 			},
 			"priceMove": func(rt *rapid.T) {
 				in, out := bond, "token0"
